@@ -54,19 +54,36 @@ class _Canon(ast.NodeTransformer):
                 return self.visit_Compare(ast.copy_location(new, n))
         return n
 
+    # a two-armed test is written with the "positive" spelling: no leading not, == / in / is rather than != / not in / is not,
+    # strict < rather than <= (so that `if c: A else: B` and `if not c: B else: A` are one tree whatever c is)
+    _POS = {ast.NotEq: ast.Eq, ast.NotIn: ast.In, ast.IsNot: ast.Is}
+
+    def _positive(self, t):
+        """(test', swapped?)"""
+        if isinstance(t, ast.UnaryOp) and isinstance(t.op, ast.Not):
+            return t.operand, True
+        if isinstance(t, ast.Compare) and len(t.ops) == 1:
+            o = type(t.ops[0])
+            if o in self._POS:
+                return ast.copy_location(ast.Compare(left=t.left, ops=[self._POS[o]()], comparators=t.comparators), t), True
+            if o is ast.LtE:
+                # not (a <= b)  ==  b < a
+                return ast.copy_location(ast.Compare(left=t.comparators[0], ops=[ast.Lt()], comparators=[t.left]), t), True
+        return t, False
+
     def visit_If(self, n):
         self.generic_visit(n)
-        t = n.test
-        if isinstance(t, ast.UnaryOp) and isinstance(t.op, ast.Not) and n.orelse and not (len(n.orelse) == 1 and isinstance(n.orelse[0], ast.If)) \
-                and not getattr(n, "_elif", False):
-            return ast.copy_location(ast.If(test=t.operand, body=n.orelse, orelse=n.body), n)
+        if n.orelse and not (len(n.orelse) == 1 and isinstance(n.orelse[0], ast.If)) and not getattr(n, "_elif", False):
+            t, sw = self._positive(n.test)
+            if sw:
+                return ast.copy_location(ast.If(test=t, body=n.orelse, orelse=n.body), n)
         return n
 
     def visit_IfExp(self, n):
         self.generic_visit(n)
-        t = n.test
-        if isinstance(t, ast.UnaryOp) and isinstance(t.op, ast.Not):
-            return ast.copy_location(ast.IfExp(test=t.operand, body=n.orelse, orelse=n.body), n)
+        t, sw = self._positive(n.test)
+        if sw:
+            return ast.copy_location(ast.IfExp(test=t, body=n.orelse, orelse=n.body), n)
         return n
 
     def visit(self, node):
